@@ -22,11 +22,8 @@ def line_of(a, order):
 
 def check(run):
     run.level = "proof"
-    try:
-        from checks import _graph_theorems
-        run.prove(_graph_theorems.C05)
-    except ImportError:
-        run.note("proof module for C05 not present yet")
+    from checks import _graph_theorems
+    run.prove(_graph_theorems.C05)
     rng = run.rng
     quick = run.tier == "quick"
     zkh = run.harness()
